@@ -39,6 +39,11 @@ def run(ctx):
     ctx.rule('R04.8', 'a batch files every detection under its own scene: per-scene entries are selected and created by '
                       'scene id, never by position in the batch')
     ctx.floor('R04.8', T.rule_batch_request(ctx, 'R04.8'), 2)
+    ctx.rule('R04.10', 'a scene keeps its own clock and its own live tracks whatever other scenes do: epoch counters are never '
+                       'removed; the tracker-wide collection moves only tracks whose status is Ok(Wasted)')
+    n = T.rule_epochs_never_forgotten(ctx, 'R04.10')
+    n += T.rule_only_expired_migrate(ctx, 'R04.10')
+    ctx.floor('R04.10', n, 3)
     import votinglib as V
     ctx.rule('R04.9', 'tracks of other scenes only add empty columns to the assignment: the winners always come from the '
                       'one maximising assignment over the id-indexed matrix (no shortcut that depends on how many tracks '
